@@ -6,7 +6,7 @@ import numpy as np
 
 import brewlib
 import recorder
-from core import require, scratch_dir
+from core import Violation, require, scratch_dir
 
 ID = "C02"
 LEVEL = "exploration"
@@ -21,7 +21,8 @@ RULE = (
     "case = (1-3 files built from drawn spectrum multiplicities 1-5, key arity 1-4 incl. keys sharing their first "
     "columns, folds 2-6, cap none/huge/active, workers 1-8, rng seed, estimator Lin/Proba, tsv/parquet, prediction "
     "and training-read chunk sizes). Non-trivial: every fold model trained and every held-out fold contains a "
-    "spectrum of multiplicity>=2. Distinct = distinct canonical JSON."
+    "spectrum of multiplicity>=2. Distinct = distinct canonical JSON. In addition one direct make_train_sets call per run "
+    "with a file of 5 000 000 + k rows (the complement is built in 5e6-row blocks) and small multi-file ones."
 )
 ASSUMPTIONS = [
     "domain: >=30 rows per fold and spectrum multiplicity<=5 (outside it a partition into the requested number of "
@@ -42,9 +43,78 @@ def strategy(tier):
     return brewlib.cv_case(tier)
 
 
+def _check_train_sets(case):
+    """Training-index construction for very long files: the complement of the held-out rows is built in blocks of
+    5 000 000 rows; only an input longer than that reaches the second block.  Index-only (no table needed)."""
+    import mokapot  # noqa: F401  (mokapot.brew is the function; the module sits in sys.modules)
+
+    bmod = __import__("sys").modules["mokapot.brew"]
+    from core import guarded
+
+    rng = np.random.default_rng(case["seed"])
+    sizes, folds = case["sizes"], case["folds"]
+    test_idx = []
+    for ds in sizes:
+        assign = rng.integers(0, folds, ds)
+        assign[:folds] = np.arange(folds)
+        test_idx.append([np.flatnonzero(assign == f) for f in range(folds)])
+    cap = case.get("cap")
+    gen = guarded(bmod.make_train_sets, test_idx, cap, list(sizes), np.random.default_rng(case["seed"] + 1), sig="make_train_sets")
+    nsets = 0
+    for f, train in enumerate(guarded(list, gen, sig="make_train_sets")):
+        require(len(train) == len(sizes), "train-sets-shape", f"fold {f}: {len(train)} index lists for {len(sizes)} files")
+        for fi, ds in enumerate(sizes):
+            got = np.sort(np.asarray(train[fi], dtype=np.int64))
+            comp = np.setdiff1d(np.arange(ds, dtype=np.int64), test_idx[fi][f], assume_unique=True)
+            require(got.size == np.unique(got).size, "train-duplicates", f"fold {f} file {fi}: a row is listed twice in the training set")
+            leaked = np.intersect1d(got, test_idx[fi][f])
+            require(leaked.size == 0, "trained-on-held-out",
+                    f"fold {f} file {fi} ({ds} rows): {leaked.size} held-out rows are in the fold's own training set, e.g. {leaked[:3].tolist()}")
+            if cap is None:
+                missing = np.setdiff1d(comp, got, assume_unique=True)
+                require(missing.size == 0 and got.size == comp.size, "train-not-complement",
+                        f"fold {f} file {fi} ({ds} rows): training rows are not the complement of the held-out rows "
+                        f"({got.size} vs {comp.size}; missing e.g. {missing[:3].tolist()})")
+            else:
+                require(np.setdiff1d(got, comp, assume_unique=True).size == 0, "train-not-subset", f"fold {f} file {fi}")
+            nsets += 1
+    return {"nontrivial": max(sizes) > 5_000_000, "classes": ["train-sets-direct", "file>5e6-rows" if max(sizes) > 5_000_000 else "small"],
+            "counters": {"train_sets_checked": nsets}}
+
+
+def extra(tier, seed, shard, nshards, stats):
+    """One direct call of make_train_sets with a file longer than its 5e6-row block (shard 0), small ones elsewhere."""
+    from core import Violation
+
+    if shard == 0:
+        cases = [{"kind": "train_sets", "sizes": [5_000_000 + 3 + seed % 50], "folds": 2, "seed": seed, "cap": None}]
+    elif shard == 1 and tier != "quick":
+        cases = [{"kind": "train_sets", "sizes": [1500, 5_000_000 + 11], "folds": 2, "seed": seed + 7, "cap": 3_000_000}]
+    else:
+        cases = [{"kind": "train_sets", "sizes": [50 + shard, 200 + 3 * shard], "folds": 2 + shard % 4, "seed": seed * 31 + shard,
+                  "cap": None if shard % 2 else 40}]
+    for case in cases:
+        stats.evaluations += 1
+        try:
+            obs = _check_train_sets(case)
+        except Violation as v:
+            stats.failure = {"case": case, "signature": v.signature, "message": v.message}
+            return
+        stats.observe(case, obs)
+
+
 def check(case):
+    if case.get("kind") == "train_sets":
+        return _check_train_sets(case)
+    rescored, order = None, None
     with scratch_dir() as tmp:
         r = brewlib.run_brew(case, tmp)
+        if r["models"] is not None and len(r["models"]) == case["folds"] and all(m.is_trained for m in r["models"]) and case["rng"] % 3 != 2:
+            # history: the trained fold models are handed back (as --load_models does) in another order; every PSM must
+            # again be scored by the model of its fold, i.e. the scores must be those of the first run
+            k = case["folds"]
+            order = list(reversed(range(k))) if case["rng"] % 3 == 0 else [(i + 1) % k for i in range(k)]
+            rescored = brewlib.rescore(case, tmp, r["models"], order)
     dfs, metas, models, scores, events = r["dfs"], r["metas"], r["models"], r["scores"], r["events"]
     folds = case["folds"]
     nfiles = len(dfs)
@@ -134,6 +204,18 @@ def check(case):
                 # orientation / anchors of the map are C11's subject (and only on C11's domain)
                 require(coef[0] != 0 and resid <= 1e-8 * scale, "score-provenance",
                         f"file {fi} fold {j + 1}: returned scores are not an affine image of the fold model's output (slope {coef[0]:.3g}, resid {resid:.3g})")
+    # --- pretrained models in another order ---------------------------------------
+    if rescored is not None:
+        require(len(rescored) == nfiles, "n-scores", f"rescoring: {len(rescored)} score vectors for {nfiles} files")
+        for fi in range(nfiles):
+            a = np.asarray(scores[fi], dtype=float).ravel()
+            b = np.asarray(rescored[fi], dtype=float).ravel()
+            bad = np.flatnonzero(~((a == b) | (np.isnan(a) & np.isnan(b)))) if a.shape == b.shape else np.arange(1)
+            if bad.size:
+                eg = f"row {int(bad[0])}: {a[bad[0]]!r} vs {b[bad[0]]!r}" if a.shape == b.shape else f"shapes {a.shape} vs {b.shape}"
+                raise Violation("pretrained-order",
+                                f"file {fi}: with the trained fold models handed over in order {[i + 1 for i in order]} {bad.size} of {a.size} "
+                                f"PSMs get another score than from the model of their fold (e.g. {eg})")
     # --- classification ---------------------------------------------------------
     mult_ok = True
     for j in range(folds):
@@ -153,5 +235,7 @@ def check(case):
         classes.append("small-predict-chunk")
     if case.get("shared_prefix") and case["key"] >= 3:
         classes.append("shared-key-prefix")
+    if rescored is not None:
+        classes.append("pretrained-models-reordered")
     return {"nontrivial": bool(trained and mult_ok), "classes": classes,
             "counters": {"rows_checked": len(all_rids), "folds_checked": folds}}
